@@ -11,6 +11,7 @@ c_NoScript == <<>>
 \* value universes (no numeric-looking / boolean-looking strings: ambiguous by design)
 c_V8 == {Str("s"), Str("t"), Num(1), Num(2), Bool(TRUE), Bool(FALSE), List(<<"s">>), List(<<"s", "t">>)}
 c_V9 == c_V8 \cup {List(<<>>)}
+c_V6 == {Str("s"), Num(1), Num(2), Bool(TRUE), List(<<"s">>), List(<<"s", "t">>)}
 c_V5 == {Str("s"), Num(1), Num(2), Bool(TRUE), List(<<"s", "t">>)}
 c_V4 == {Str("s"), Num(2), Bool(TRUE), List(<<"s", "t">>)}
 c_V3 == {Str("s"), Num(2), List(<<"t", "s">>)}
@@ -23,11 +24,15 @@ NoMeta == [x \in {"k", "j"} |-> Absent]
 \* one key, every value type
 c_Add_K8 == Metas(c_V8, {})
 c_Set_K8 == c_Add_K8 \ {NoMeta}
+c_Add_K6 == Metas(c_V6, {})
+c_Set_K6 == c_Add_K6 \ {NoMeta}
 c_Add_K9 == Metas(c_V9, {})
 c_Set_K9 == c_Add_K9 \ {NoMeta}
 \* two keys
 c_Add_KJ4 == Metas(c_V4, c_V4)
 c_Set_KJ4 == c_Add_KJ4 \ {NoMeta}
+c_Add_KJ43 == Metas(c_V4, c_V3)
+c_Set_KJ43 == c_Add_KJ43 \ {NoMeta}
 c_Add_KJ53 == Metas(c_V5, c_V3)
 c_Set_KJ53 == c_Add_KJ53 \ {NoMeta}
 c_Add_KJ32 == Metas(c_V3, c_V2)
